@@ -241,9 +241,19 @@ pub fn c03_case(case: &Case<'_>, ctx: &mut Ctx, acc: &mut Acc) {
                     }
                     continue;
                 }
-                if valid_alignment(case, &ctx.idx).is_err() {
-                    acc.count("skipped_invalid_alignment(C02)", 1);
+                // the scheme is defined on positions: it can be evaluated on whatever alignment
+                // is reported as long as it is structurally an alignment (one in-range index per
+                // needle character, strictly increasing) - whether the characters there really
+                // match is C02's question
+                let structural = ctx.idx.len() == n
+                    && ctx.idx.iter().all(|&i| (i as usize) < case.hay.chars.len())
+                    && ctx.idx.windows(2).all(|w| w[0] < w[1]);
+                if !structural {
+                    acc.count("skipped_structurally_invalid_alignment(C02)", 1);
                     continue;
+                }
+                if valid_alignment(case, &ctx.idx).is_err() {
+                    acc.count("scored_although_not_a_witness(C02)", 1);
                 }
                 any = true;
                 let want = refm::ref_score(case.view, &ctx.idx).min(65535);
